@@ -32,6 +32,7 @@ type c15Op struct {
 	Ctx  string `json:"ctx"`  // call: "" live context, "cancel" already cancelled, "deadline" deadline passed
 	Rep  int    `json:"rep"`  // Use/Unuse: the argument list repeated this many times (0 = once)
 	M    string `json:"m"`    // call: published function: "" echo, "fail" returns an error, "boom" panics
+	TF   int    `json:"tf"`   // call: scripted transport fault 7001..7007 (0 = none), see faultErr
 	CC   int    `json:"cc"`   // call: 0 fresh context; k>0: reuse context slot k across calls
 	CCM  string `json:"ccm"`  // "ctx": the same context.Context object; "cc": the same *ClientContext in a fresh context.Context
 }
@@ -44,6 +45,7 @@ type c15Round struct {
 type c15Entry struct {
 	Kind string  `json:"kind"`
 	K    int     `json:"k"`    // which of the distinct functions / types (kinds fi fo tk pik pok)
+	// Z short-circuit with core.ErrClosed;
 	Beh  string  `json:"beh"`  // P pass, S short-circuit ok, E short-circuit error, A alter, F error after next, K cancel ctx for next
 	Mids []c15Op `json:"mids"` // Use/Unuse performed while a call is inside the handler
 }
@@ -120,7 +122,10 @@ func (t *callTrace) add(s string) {
 type traceKeyT struct{}
 
 // a context.Context reused for several calls carries a holder whose trace is swapped per call
-type traceHolder struct{ tr atomic.Value }
+type traceHolder struct {
+	tr    atomic.Value
+	fault int64
+}
 
 func traceOf(ctx context.Context) *callTrace {
 	switch t := ctx.Value(traceKeyT{}).(type) {
@@ -163,7 +168,41 @@ type res struct {
 
 // the request as an event shows it: the state of the context the handler was given (9001
 // cancelled, 9002 deadline exceeded) in front of the request tokens
+type faultKeyT struct{}
+
+// the fault the transport is to answer this call with
+func faultOf(ctx context.Context) int {
+	if f, ok := ctx.Value(faultKeyT{}).(int); ok {
+		return f
+	}
+	if h, ok := ctx.Value(traceKeyT{}).(*traceHolder); ok {
+		return int(atomic.LoadInt64(&h.fault))
+	}
+	return 0
+}
+
+func faultErr(f int) error {
+	switch f {
+	case 7001:
+		return core.ErrClosed
+	case 7002:
+		return core.ErrTimeout
+	case 7003:
+		return context.Canceled
+	case 7004:
+		return context.DeadlineExceeded
+	case 7005:
+		return core.InvalidResponseError{}
+	case 7006:
+		return errors.New("e55")
+	}
+	return nil
+}
+
 func fmtReq(ctx context.Context, name string, t []int) string {
+	if f := faultOf(ctx); f != 0 {
+		t = append([]int{f}, t...)
+	}
 	switch name {
 	case "fail":
 		t = append([]int{8001}, t...)
@@ -209,6 +248,12 @@ func errRes(err error) res {
 		return res{e: 9001}
 	case context.DeadlineExceeded.Error():
 		return res{e: 9002}
+	case core.ErrClosed.Error():
+		return res{e: 9101}
+	case core.ErrTimeout.Error():
+		return res{e: 9102}
+	case (core.InvalidResponseError{}).Error():
+		return res{e: 9103}
 	}
 	if strings.HasPrefix(msg, "e") {
 		if n, e := strconv.Atoi(msg[1:]); e == nil {
@@ -360,6 +405,9 @@ func runInvoke(sl *slot, ctx context.Context, name string, args []interface{}, n
 	case 'E':
 		tr.add("-" + lab + "=" + res{e: sl.id}.String())
 		return nil, errors.New("e" + strconv.Itoa(sl.id))
+	case 'Z':
+		tr.add("-" + lab + "=" + res{e: 9101}.String())
+		return nil, core.ErrClosed
 	case 'A':
 		args2 := make([]interface{}, 0, len(args)+1)
 		args2 = append(args2, args...)
@@ -411,6 +459,9 @@ func runIO(sl *slot, ctx context.Context, request []byte, next core.NextIOHandle
 	case 'E':
 		tr.add("-" + lab + "=" + res{e: sl.id}.String())
 		return nil, errors.New("e" + strconv.Itoa(sl.id))
+	case 'Z':
+		tr.add("-" + lab + "=" + res{e: 9101}.String())
+		return nil, core.ErrClosed
 	case 'A':
 		r, err := next(ctx, encReq(name, append(append([]int(nil), req...), sl.id)))
 		x := projIO(r, err)
@@ -736,11 +787,18 @@ func (e *env) callOp(op c15Op) (c c15Call, ballast int64) {
 	defer func() {
 		if p := recover(); p != nil {
 			tr.mu.Lock()
-			c = c15Call{Trace: strings.Join(tr.ev, ";"), Res: fmt.Sprintf("panic:%v", p)}
+			msg := fmt.Sprintf("panic:%v", p)
+			if msg == "panic:e79" {
+				msg = "panic" // the scripted panic of the transport, unwinding to the caller
+			}
+			c = c15Call{Trace: strings.Join(tr.ev, ";"), Res: msg}
 			tr.mu.Unlock()
 		}
 	}()
 	ctx := context.WithValue(context.Background(), traceKeyT{}, tr)
+	if op.TF != 0 {
+		ctx = context.WithValue(ctx, faultKeyT{}, op.TF)
+	}
 	if op.CC > 0 {
 		// the caller keeps one ClientContext / one context.Context for several calls
 		if e.slots == nil {
@@ -756,6 +814,7 @@ func (e *env) callOp(op c15Op) (c c15Call, ballast int64) {
 			ctx = core.WithContext(ctx, sl.cc)
 		} else {
 			sl.holder.tr.Store(tr)
+			atomic.StoreInt64(&sl.holder.fault, int64(op.TF))
 			ctx = sl.ctx
 		}
 	}
@@ -796,6 +855,13 @@ var sent, served int64
 type countingTransport struct{ inner mock.Transport }
 
 func (t *countingTransport) Transport(ctx context.Context, request []byte) ([]byte, error) {
+	if f := faultOf(ctx); f != 0 {
+		// the scripted fault of the innermost layer: the request is not sent
+		if f == 7007 {
+			panic("e79")
+		}
+		return nil, faultErr(f)
+	}
 	atomic.AddInt64(&sent, 1)
 	return t.inner.Transport(ctx, request)
 }
